@@ -39,6 +39,8 @@ type spec struct {
 	TimeoutThor    time.Duration
 	Isolate        bool // restart shard after a process death, skipping the open case
 	Level          string
+	Fuzz           []string      // native fuzz targets run in the thorough tier
+	FuzzTime       time.Duration // per target
 }
 
 func def() spec {
@@ -46,12 +48,17 @@ func def() spec {
 }
 
 var specs = map[string]func(*spec){
-	"C01": func(s *spec) {},
+	"C01": func(s *spec) { s.Fuzz = []string{"FuzzReaders", "FuzzAhead", "FuzzWriters"}; s.FuzzTime = 3 * time.Minute },
 	"C02": func(s *spec) {},
 	"C03": func(s *spec) {},
 	"C04": func(s *spec) {},
 	"C05": func(s *spec) {},
-	"C06": func(s *spec) { s.Isolate = true; s.ShardsQuick = 16 },
+	"C06": func(s *spec) {
+		s.Isolate = true
+		s.ShardsQuick = 16
+		s.Fuzz = []string{"FuzzDecode"}
+		s.FuzzTime = 8 * time.Minute
+	},
 	"C07": func(s *spec) { s.ShardsQuick = 16 },
 	"C08": func(s *spec) { s.ShardsQuick = 16 },
 	"C09": func(s *spec) { s.ShardsQuick = 16 },
@@ -174,7 +181,109 @@ func run() int {
 	}
 	wg.Wait()
 
+	var fz []fuzzResult
+	if tier == "thorough" || os.Getenv("VERIF_FUZZ") != "" {
+		for _, target := range sp.Fuzz {
+			fz = append(fz, runFuzz(id, sp, work, target))
+		}
+	}
+	fuzzResults = fz
+
 	return merge(id, sp, tier, seed, results, time.Since(start).Seconds())
+}
+
+type fuzzResult struct {
+	Target      string `json:"target"`
+	Seconds     int    `json:"seconds"`
+	Execs       int64  `json:"execs"`
+	Interesting int64  `json:"new_interesting"`
+	Crasher     string `json:"crasher,omitempty"`
+	LogTail     string `json:"log_tail,omitempty"`
+	Status      string `json:"status"`
+}
+
+var fuzzResults []fuzzResult
+
+var reFuzzLine = regexp.MustCompile(`fuzz: elapsed: [^,]+, execs: (\d+) \([^)]*\), new interesting: (\d+)`)
+var reCrasher = regexp.MustCompile(`Failing input written to (\S+)`)
+
+// runFuzz runs one native fuzz target (coverage guided) for the configured
+// time.  Go's fuzzer cannot be pinned to a seed; a saved crasher is the
+// reproducible unit.
+func runFuzz(id string, sp spec, work, target string) fuzzResult {
+	res := fuzzResult{Target: target, Seconds: int(sp.FuzzTime.Seconds())}
+	if s := os.Getenv("VERIF_FUZZTIME"); s != "" {
+		if d, err := time.ParseDuration(s); err == nil {
+			sp.FuzzTime = d
+			res.Seconds = int(d.Seconds())
+		}
+	}
+	bin := filepath.Join(work, strings.ToLower(id)+".fuzz.test")
+	if _, err := os.Stat(bin); err != nil {
+		args := []string{"test", "-c", "-vet=off", "-fuzz=" + target, "-o", bin}
+		if repo := os.Getenv("VERIF_REPO"); repo != "" && repo != "/repo" {
+			args = append(args, "-modfile", filepath.Join(work, "alt.mod"))
+		}
+		args = append(args, "./props/"+strings.ToLower(id))
+		cmd := exec.Command("go", args...)
+		cmd.Dir = root
+		cmd.Env = goEnv()
+		if out, err := cmd.CombinedOutput(); err != nil {
+			res.Status = "build-failed"
+			res.LogTail = string(out)
+			return res
+		}
+	}
+	dir := filepath.Join(work, "fuzz-"+target)
+	_ = os.MkdirAll(dir, 0o755)
+	logPath := filepath.Join(dir, "log.txt")
+	sh := fmt.Sprintf("ulimit -v %d; exec \"$0\" \"$@\"", 12*1024*1024)
+	cmd := exec.Command("sh", "-c", sh, bin, "-test.run=^$", "-test.fuzz=^"+target+"$", "-test.fuzztime="+sp.FuzzTime.String(),
+		"-test.fuzzcachedir="+filepath.Join(dir, "cache"), "-test.timeout=0", "-test.parallel=16")
+	cmd.Dir = dir
+	cmd.Env = append(os.Environ(), "VERIF_ROOT="+root, "VERIF_TIER=thorough", "VERIF_FUZZING=1")
+	cmd.SysProcAttr = &syscall.SysProcAttr{Setpgid: true}
+	lf, _ := os.Create(logPath)
+	cmd.Stdout, cmd.Stderr = lf, lf
+	if err := cmd.Start(); err != nil {
+		lf.Close()
+		res.Status = "start-failed"
+		return res
+	}
+	done := make(chan error, 1)
+	go func() { done <- cmd.Wait() }()
+	var err error
+	select {
+	case err = <-done:
+	case <-time.After(sp.FuzzTime + 10*time.Minute):
+		_ = syscall.Kill(-cmd.Process.Pid, syscall.SIGKILL)
+		<-done
+		res.Status = "killed-by-harness"
+	}
+	lf.Close()
+	b, _ := os.ReadFile(logPath)
+	logs := string(b)
+	if ms := reFuzzLine.FindAllStringSubmatch(logs, -1); len(ms) > 0 {
+		last := ms[len(ms)-1]
+		res.Execs, _ = strconv.ParseInt(last[1], 10, 64)
+		res.Interesting, _ = strconv.ParseInt(last[2], 10, 64)
+	}
+	if res.Status == "" {
+		if err == nil {
+			res.Status = "ok"
+		} else {
+			res.Status = "failed"
+			if m := reCrasher.FindStringSubmatch(logs); m != nil {
+				res.Crasher = filepath.Join(dir, m[1])
+			}
+			lines := strings.Split(logs, "\n")
+			if len(lines) > 80 {
+				lines = lines[len(lines)-80:]
+			}
+			res.LogTail = strings.Join(lines, "\n")
+		}
+	}
+	return res
 }
 
 func goEnv() []string {
@@ -464,6 +573,7 @@ func merge(id string, sp spec, tier string, seed uint64, results []*shardResult,
 	}
 	oomConfirmed := map[string]confirmResult{}
 	suspectedHangs := []string{}
+	inconclusiveFuzz := []string{}
 	rule := ""
 	var assumptions []string
 
@@ -602,6 +712,42 @@ func merge(id string, sp spec, tier string, seed uint64, results []*shardResult,
 		}
 	}
 
+	// native fuzzing (thorough tier)
+	var fuzzExecs int64
+	for _, fr := range fuzzResults {
+		fuzzExecs += fr.Execs
+		switch fr.Status {
+		case "ok":
+		case "failed":
+			sig := "fuzz:" + fr.Target + ":" + harness.FaultFrame(stripArgs(fr.LogTail))
+			if m := regexp.MustCompile(`\[([^\]\s]+)\]`).FindStringSubmatch(fr.LogTail); m != nil {
+				sig = m[1]
+			}
+			if strings.Contains(fr.LogTail, "fuzzing process hung or terminated unexpectedly") {
+				// a worker died or hung: resource limits can cause that
+				inconclusiveFuzz = append(inconclusiveFuzz, fr.Target+": worker terminated unexpectedly (input kept: "+fr.Crasher+")")
+				continue
+			}
+			if matchKnown(known, sig, excluded) {
+				continue
+			}
+			v := harness.Violation{Property: id, Test: fr.Target, Signature: sig, Message: fr.LogTail, Tier: tier, Seed: seed,
+				Case: map[string]any{"fuzz_crasher": fr.Crasher}}
+			if fr.Crasher != "" {
+				dst := filepath.Join(root, "replays", id, "fuzz-"+fr.Target+"-"+filepath.Base(fr.Crasher))
+				_ = os.MkdirAll(filepath.Dir(dst), 0o755)
+				if copyFile(fr.Crasher, dst) == nil {
+					v.Case = map[string]any{"fuzz_crasher": dst}
+				}
+			}
+			v.Path = writeViolation(id, v)
+			viols = append(viols, v)
+		default:
+			inconclusiveFuzz = append(inconclusiveFuzz, fr.Target+": "+fr.Status)
+		}
+	}
+	evals += fuzzExecs
+
 	// samples: round robin over shards, at most 12
 	var samples []any
 	for i := 0; len(samples) < 12; i++ {
@@ -645,6 +791,8 @@ func merge(id string, sp spec, tier string, seed uint64, results []*shardResult,
 		"excluded_after_crash":   excludedAfterCrash,
 		"resource_inconclusive":  resourceInconclusive,
 		"suspected_hangs":        suspectedHangs,
+		"native_fuzzing":         fuzzResults,
+		"native_fuzzing_notes":   inconclusiveFuzz,
 		"shards":                 len(results),
 		"cases_per_test":         tests,
 		"violation_signatures":   keys(seen),
